@@ -948,3 +948,57 @@ def r17_13_hour_24(ctx: Ctx) -> RuleResult:
     else:
         rr.fail(f.qual, "hour 24 is not turned into hour 0 (under the `_hours_24 == 24` test, before the time bucket calculates its value) plus one day: `2020-02-28T24:00:00`, valid ISO 8601, is rejected or lands on the wrong day", ctx.loc(f, test) if test is not None else ctx.loc(f))
     return rr
+
+
+@rule("C17")
+def r17_14_offset_field_getters(ctx: Ctx) -> RuleResult:
+    """The H / m / s fields of every Offset pattern (and so of every fixed-zone id `UTC-05:30:15`) are written from getters handed
+    to _handle_padded_field.  Each getter is evaluated by the abstract interpreter on exact offsets of both signs and must return
+    the hours / minutes / seconds of the MAGNITUDE: Python's floor modulo on a negative offset gives 60 - s, C-style remainder
+    was what upstream's `%` meant."""
+    from ..absint import Iv, Obj
+    from ..oblig import interp
+
+    rr = RuleResult("R17.14", "the H / m / s getters of the Offset patterns return hours, minutes and seconds of the magnitude (evaluated for offsets of both signs)", min_instances=3)
+    M = ctx.M
+    c = M.cls("_OffsetPatternParser", required=True)
+    want = {"H": lambda a: a // 3600, "m": lambda a: a % 3600 // 60, "s": lambda a: a % 60}
+    found = {}
+    for n in ast.walk(c.node):
+        if isinstance(n, ast.Dict):
+            for k, v in zip(n.keys, n.values):
+                if isinstance(k, ast.Constant) and k.value in want and isinstance(v, ast.Call) and unparse(v.func).endswith("_handle_padded_field"):
+                    getters = [a for a in v.args if isinstance(a, ast.Name) and "get" in a.id]
+                    if len(getters) == 1:
+                        found[k.value] = getters[0].id
+    if set(found) != set(want):
+        raise AnalysisError(f"_OffsetPatternParser: the H / m / s padded fields and their getters were not all found ({sorted(found)})")
+    samples = (0, 1, -1, 15, -15, 59, -59, 60, -60, 61, -61, 1815, -1815, 3599, -3599, 3600, -3600, 19815, -19815, 19845, -19845, 64799, -64799, 64800, -64800)
+    for ch, gname in sorted(found.items()):
+        g = next((x for x in c.all_defs if x.name in (gname, mangle(c.name, gname)) or mangle(c.name, x.name) == mangle(c.name, gname)), None)
+        if g is None or isinstance(g.node, ast.Lambda):
+            raise AnalysisError(f"_OffsetPatternParser: getter `{gname}` of field {ch!r} not resolved")
+        rr.inst()
+        bad = None
+        und = None
+        for s in samples:
+            I = interp(ctx)
+            I.max_depth = 4
+            r2, _ = I.analyse(g, params={g.params[0].arg: Obj("Offset", {mangle("Offset", "__seconds"): Iv(s, s)})})
+            rr.states += 1
+            vals = {int(v.lo) for v, _ in r2 if isinstance(v, Iv) and v.const}
+            if len(r2) >= 1 and len(vals) == 1 and all(isinstance(v, Iv) and v.const for v, _ in r2):
+                got = vals.pop()
+                if got != want[ch](abs(s)):
+                    bad = bad or (s, got)
+            else:
+                und = und or s
+        if bad is not None:
+            s, got = bad
+            rr.fail(g.qual, f"field {ch!r} of an offset of {s} seconds is written as {got}, not {want[ch](abs(s))}: the text (and the id of the fixed zone built from it) names a different offset", ctx.loc(g))
+        elif und is not None:
+            rr.undecided.append(f"{g.qual}: not evaluated exactly at {und} seconds")
+            rr.ok()
+        else:
+            rr.ok({"field": ch, "getter": g.qual, "offsets evaluated": len(samples)})
+    return rr
